@@ -81,5 +81,21 @@ func sessCorpus() []run.Case {
 		ctl("commit", 0), set(-1, true),
 		{K: "call", Sid: -1, C: &sessCall{M: "dropCollection", Coll: "c"}}, ins(-1, 1, 100), find(-1),
 	})...)
+	// 5. index operations directly on the open transaction, then abort: the committed catalog keeps
+	// exactly its index names and contents (C15)
+	out = append(out, sessScript(2, []*sessStep{
+		{K: "call", Sid: -1, C: &sessCall{M: "insertMany", Coll: "c", Docs: []bson.D{doc(1, 1), doc(2, 2), doc(3, 2)}, Ordered: true}},
+		{K: "call", Sid: -1, C: &sessCall{M: "createIndex", Coll: "c", Keys: bson.D{{Key: "b", Value: i32(1)}}}},
+		ctl("start", 0), ins(0, 4, 4),
+		{K: "idxabort", Sid: 0, C: &sessCall{M: "createIndex", Coll: "c", Keys: bson.D{{Key: "a", Value: i32(1)}}, Unique: true}}, // fails: duplicate
+		{K: "call", Sid: -1, C: &sessCall{M: "listIndexes", Coll: "c"}},
+		ctl("start", 0), set(0, false),
+		{K: "idxabort", Sid: 0, C: &sessCall{M: "createIndex", Coll: "c", Keys: bson.D{{Key: "a", Value: i32(-1)}}}}, // succeeds in the view
+		{K: "call", Sid: -1, C: &sessCall{M: "listIndexes", Coll: "c"}},
+		ctl("start", 1), {K: "idxabort", Sid: 1, C: &sessCall{M: "dropIndex", Coll: "c", Name: "b_1"}},
+		{K: "call", Sid: -1, C: &sessCall{M: "listIndexes", Coll: "c"}},
+		ctl("start", 1), ins(1, 5, 5), {K: "idxabort", Sid: 1, C: &sessCall{M: "dropAllIndexes", Coll: "c"}},
+		{K: "call", Sid: -1, C: &sessCall{M: "listIndexes", Coll: "c"}}, ins(-1, 6, 6), find(-1),
+	})...)
 	return out
 }
